@@ -61,3 +61,7 @@ add("C09", "CRASH", "fault_enumeration", "exhaustive crash-point and torn-write 
 add("C17", "CRASH", "fault_enumeration", "exhaustive enumeration of a generated layout family x stores, plus every crash point of each conversion, on the implementation",
     "Every layout of a generated family of legacy (fallback tag) layouts is opened with a writable directory store and with a memory store over the directory: the converted referrers must be exactly the listed artifacts that exist and name the subject, everything else stays served, the layout is marked converted, a second round and a reopen agree, the first access terminates (dead-lock = no enabled thread under the deterministic runtime), and a crash before every mutating filesystem call of the conversion followed by a reopen gives the uninterrupted result.",
     TRUSTED, "DESIGN.md section 4 C17")
+
+add("C20", "SEQ+SCHED", "model_checking", "explicit-state BFS over cache operation sequences with virtual time, plus preemption-bounded DFS over thread interleavings with a happens-before prefix cache, both on the real cache.Cache",
+    "Sequential part: all sequences up to the depth bound of Set/Get/Delete/DeleteAll, cleanup-failure toggles and virtual time steps for Age in {0,10s} x Count in {0..3}, with the real age timer and pruneCount goroutine; every callback and the contents are checked after every step. Concurrent part: 9-12 scenarios of 1-3 threads (incl. a Get under the value's own mutex, due timers, overflow goroutines) explored over all interleavings up to preemption bound 2/3: every value that left the cache without being overwritten had a nil cleanup.",
+    TRUSTED + " Scheduling points: lock, wait-group wait, channel operations, thread start/end; releases are not preemption points (sound under data-race freedom, which C13 checks).", "DESIGN.md section 4 C20")
